@@ -412,6 +412,15 @@ Inductive chain_ids (m : list (name * info)) : name -> list nat -> Prop :=
 Definition lower_of (m : mnt) : list nat := match m with MBind _ _ => [] | MOverlay _ l => l end.
 Definition mount_count (s : st) (id : nat) : nat := length (filter (fun p => Nat.eqb (fst p) id) (mounts s)).
 Definition is_close (o : op) : bool := match o with Close _ => true | _ => false end.
+(* the key whose chain mounts() checks: the parent for Prepare/View, the key itself for Mounts *)
+Definition check_key (o : op) : option name :=
+  match o with
+  | Prepare _ p _ _ _ | View _ p _ _ => p
+  | Mounts k _ => Some k
+  | _ => None
+  end.
+Definition cbad_of (o : op) : list nat :=
+  match o with Prepare _ _ _ _ c | View _ _ _ c | Mounts _ c => c | _ => [] end.
 
 (* Discipline of an event sequence: every Unmount that hits a live mount satisfies [P] (its directory),
    and every directory removal comes directly after the backend Unmount call for that directory. *)
